@@ -67,6 +67,7 @@ def drive(op_factory, chunks, key=None, junk=None, mode=None):
         state = {'ended': 'open'}
         pos = [0]
         got = [0]
+        depth = [0]
         outs = []
 
         def on_error(e):
@@ -95,8 +96,12 @@ def drive(op_factory, chunks, key=None, junk=None, mode=None):
             cur.append(x)
             got[0] += 1
             if reentrant_counts is not None and pos[0] < len(chunks) and state['ended'] == 'open' \
-                    and got[0] == reentrant_counts[pos[0] - 1]:
-                push_next()          # nested: from inside the delivery of this item
+                    and got[0] == reentrant_counts[pos[0] - 1] and depth[0] < 25:
+                depth[0] += 1        # nested: from inside the delivery of this item (bounded depth)
+                try:
+                    push_next()
+                finally:
+                    depth[0] -= 1
         piped.subscribe(on_next=on_next, on_error=on_error, on_completed=on_completed)
         while pos[0] < len(chunks):
             k = pos[0]
